@@ -39,7 +39,7 @@ func (r *rng) intn(n int) int {
 	return int(r.next() % uint64(n))
 }
 func (r *rng) chance(pct int) bool { return r.intn(100) < pct }
-func (r *rng) pick(xs ...int) int   { return xs[r.intn(len(xs))] }
+func (r *rng) pick(xs ...int) int  { return xs[r.intn(len(xs))] }
 func (r *rng) bytes(n int) []byte {
 	b := make([]byte, n)
 	for i := range b {
@@ -160,5 +160,5 @@ func safeRun(st *stream, line string, toks []string) (res string) {
 
 func (r *rng) pickStr(xs ...string) string { return xs[r.intn(len(xs))] }
 
-func sortStrings(s []string)                  { sort.Strings(s) }
+func sortStrings(s []string)                    { sort.Strings(s) }
 func joinStrings(s []string, sep string) string { return strings.Join(s, sep) }
